@@ -201,14 +201,17 @@ claim(
 )
 claim(
     "C13",
-    "table agreement (documentation support table vs the styles' reader tables; Sphinx prefix order), finite-domain abstract evaluation of the "
-    "signature-fallback slot selection, offset-contract checks backed by the reader summaries of the bounds analysis, typestate on the CFG "
-    "(admonition title re-assigned between flushes), append discipline of the Sphinx exception reader",
-    "Only necessary conditions of the round-trip are decided: supported sections have readers, field prefixes cannot shadow, generator/iterator/"
-    "tuple slots are selected as documented and only for several items, block readers return the last consumed line and callers skip exactly the "
-    "header, a stale admonition title cannot label later content, repeated :raises: fields are all kept, docstring types win over the "
-    "signature. The round-trip over generated documents is NOT decided by this family.",
-    TB + "; docs/reference/docstrings.md is read at run time",
+    "finite-domain abstract evaluation of the three parsers (their own ASTs interpreted on enumerated well-formed documents rendered from a model of "
+    "sections: every ordered pair of section kinds, four description shapes per item kind, signature-fallback cases, Sphinx field orders), table "
+    "agreement (documentation support table vs reader tables; Sphinx prefix order), offset-contract checks backed by the reader summaries of the "
+    "bounds analysis, typestate on the CFG (admonition title re-assigned between flushes)",
+    "Decided for about 500 generated documents per run (Google and Numpy: all ordered pairs of 14 section kinds, multi-paragraph / role / list "
+    "descriptions for each item kind, annotations from the signature vs written ones; Sphinx: type given in-line, before, after or not at all): "
+    "the parsed sections, item names, annotations and descriptions equal the model (descriptions up to trailing newlines; Sphinx up to white "
+    "space). Plus the structural rules: supported sections have readers, field prefixes cannot shadow, generator/iterator/tuple slots, block "
+    "readers' offset contract, stale admonition title, repeated :raises:. Documents with more than two sections after the summary, parser options "
+    "other than the defaults and default values are NOT enumerated.",
+    TB + "; docs/reference/docstrings.md is read at run time and is the authority for the well-formed syntax the renderer in sa/rules/C13.py emits",
 )
 claim(
     "C03",
